@@ -327,7 +327,7 @@ Proof.
     assert (Hk : cont k) by apply cont_lins_ne.
     pose proof (node_step_lin fo i k st x _ Hoki Hk HR Hpc' Hop Hst) as Hstep.
     destruct (item_effect fo i x) as [x1|e] eqn:Eeff; cbn [bind].
-    + destruct Hstep as (st1 & -> & HR1). cbn [bind].
+    + destruct Hstep as (st1 & -> & HR1 & _). cbn [bind].
       destruct (item_effect_inv fo i x x1 Hoki Eeff Hs Hop) as (Hs1 & Hp1 & Hd1).
       assert (Hdt : lin_depth (length (m_stack x1)) (j :: t') = true).
       { cbn [lin_depth] in Hd. cbv zeta in Hd1. destruct (l_close i).
